@@ -91,6 +91,13 @@ class Roles:
                     fld = queue_field_of_call(P, f, i)
                     if fld in (MSGQ, RESPQ, STALLQ):
                         self.qcalls.setdefault(fld, []).append((f, i))
+        # the node table itself: the file-static object handed to g_hash_table_insert by the creation code
+        self.table_global = None
+        for f in self.fns:
+            for i in f.calls("g_hash_table_insert"):
+                for t in flow.origins(f, i.args[0]):
+                    if t[0] == "gload":
+                        self.table_global = t[1]
         # table reset: removes entries from the hash table while iterating
         self.reset_fns = {f.name for f in self.fns if any(i.callee == "g_hash_table_iter_remove" for i in f.calls())}
         # wire append: memcpy into the 256-byte static send buffer
@@ -101,6 +108,13 @@ class Roles:
                     for t in flow.origins(f, i.args[0]):
                         if t[0] == "gaddr" and P.globals.get(t[1], {}).get("size") == 256 and P.globals[t[1]].get("internal"):
                             self.wire.add(f.name)
+        if not self.wire:
+            # the append may be a byte-wise copy loop: take the role from the sender's own role finder
+            try:
+                from .props import c01 as _c01
+                self.wire = {f_.name for f_, i_ in _c01.send_roles(w)["append"]}
+            except AnalysisBroken:
+                self.wire = set()
         if not self.wire:
             raise AnalysisBroken("wire-append function not found")
         # retry: pops the deferred-message queue and appends to the wire (not the reset)
